@@ -162,7 +162,7 @@ def c13_r3(ctx):
             ctx.viol('%s|manager-key' % nx.path, t['at'],
                      'the window manager is looked up by `%s` instead of the key taken from the element: windows would mix keys' % key[:100], None)
     # results are stamped with the same key: add_key(key.clone()) in the extend closures
-    fam = facts.closures_of(nx)
+    fam = [nx] + facts.closures_of(nx)      # `extend(map(|e| .. add_key ..))` or a `for` loop pushing into the buffer
     addk = 0
     for g in fam:
         s2 = q.sym(facts, g)
